@@ -53,4 +53,20 @@ loop(f"{FM}:compute_branch_distance_fitness_is_covered", 0, invariant=[
     "side_covered(trace.false_distances, exclude_false, p) for p in _done)",
 ])
 
+# -- coverage values: in [0, 1]; 1 exactly when everything is covered (cardinalities of finite sets, A-CARD) ------
+contract(f"{FM}:compute_line_coverage",
+         requires=["trace_in_registry(trace, subject_properties)"],
+         ensures=["0 <= result and result <= 1",
+                  "(result == 1) == (trace.covered_line_ids == keys(subject_properties.existing_lines))"])
+contract(f"{FM}:compute_line_coverage_fitness_is_covered",
+         requires=["trace_in_registry(trace, subject_properties)"],
+         ensures=["result == (trace.covered_line_ids == keys(subject_properties.existing_lines))"])
+contract(f"{FM}:compute_checked_coverage_statement_fitness_is_covered",
+         requires=["trace_in_registry(trace, subject_properties)"],
+         ensures=["result == (trace.checked_lines == keys(subject_properties.existing_lines))"])
+contract(f"{FM}:compute_branch_coverage",
+         requires=["wf_trace(trace)", "trace_in_registry(trace, subject_properties)"],
+         ensures=["0 <= result and result <= 1",
+                  "(result == 1) == all_covered(trace, subject_properties, None, None, None)"])
+
 from . import c10_goals  # noqa: E402,F401  (goal-level contracts)
